@@ -258,6 +258,7 @@ func runC02(r *core.Run) {
 			return core.Outcome{Class: c.Layout, Nontrivial: c.Len >= 2, Evals: 4}
 		})
 
+	nilFieldsFastq(r)
 	interleavedReadersFor(r, []string{"fastq"})
 	consumerMutatesRecords(r, []string{"fastq"})
 	bigFiles(r, "fastq", []int{0})
